@@ -1025,7 +1025,9 @@ func checkWriterIntakeClosedWorld(c *Ctx, rule string) {
 			cs := callersOf(p, f.ID)
 			only := len(cs) > 0
 			for _, s := range cs {
-				if _, ok := reviewed[s.Fn.ID]; !ok {
+				// the drivers of the leaf protocol, not the constructor: a helper of the constructor that resets the
+				// counters of an existing writer is a second life of that writer, which no rule covers
+				if _, ok := reviewed[s.Fn.ID]; !ok || s.Fn.ID == "pkg/cafs.defaultFs.writer" {
 					only = false
 				}
 			}
